@@ -90,7 +90,21 @@ func Harness_C08_lookup() {
 			if !c.open {
 				continue
 			}
-			nodes[c.node].CloseConnection(c.id)
+			if verif_Bool() {
+				nodes[c.node].CloseConnection(c.id)
+			} else {
+				// the client goes silent: its node's heartbeat-timeout sweep closes the connection
+				now += int64(nodes[c.node].config.HeartbeatTimeout) + int64(time.Second)
+				verif_ClockSet(now)
+				for _, o := range conns {
+					if o != c && o.open && o.authed {
+						verif_Assert("C08.heartbeat.ok", vsHeartbeat(nodes[o.node], o.id) == nil)
+					}
+				}
+				nodes[c.node].cleanupStaleConnections()
+				verif_Assert("C08.sweep.closed", nodes[c.node].clientRegistry.GetByConnID(c.id) == nil)
+				verif_Cover("C08.swept")
+			}
 			c.open = false
 		case 2: // lookup from either node
 			asker := nodes[verif_Choose(2)]
